@@ -288,6 +288,61 @@ func (g *pureGen) caseMatch() (string, string) {
 	return in, out
 }
 
+// caseBBP: a book for `types.BidsByPrice` — few distinct prices (many ties), ids 1…n in input order
+// (the order the keeper reads them in), up to 40 bids so that Go's sort leaves the insertion-sort
+// regime (n > 12).  The input line carries what `types.SortBids` returns for this book (the
+// translated BidsByPrice takes it as its oracle); the answer is what `types.BidsByPrice` returns.
+func (g *pureGen) caseBBP() (string, string) {
+	n := g.between(1, 12)
+	if g.r.Intn(2) == 0 {
+		n = g.between(13, 40)
+	}
+	k := g.between(1, 6)
+	pool := make([]*big.Int, k)
+	for i := range pool {
+		pool[i] = g.price()
+	}
+	var pr []*big.Int
+	var pparts []string
+	for i := 0; i < n; i++ {
+		p := pool[g.r.Intn(k)]
+		pr = append(pr, p)
+		pparts = append(pparts, p.String())
+	}
+	book := func() []types.Bid {
+		bids := make([]types.Bid, n)
+		for i := 0; i < n; i++ {
+			bids[i] = types.Bid{AuctionId: 0, Id: uint64(i + 1), Bidder: "b", Type: types.BidTypeBatchMany, Price: decOf(pr[i]), Coin: sdk.NewCoin("sell", math.NewInt(1))}
+		}
+		return bids
+	}
+	var oparts []string
+	sorted := safe(func() string {
+		for _, b := range types.SortBids(book()) {
+			oparts = append(oparts, fmt.Sprint(b.Id))
+		}
+		return "ok"
+	})
+	in := fmt.Sprintf("bbp %d %s out %s", n, strings.Join(pparts, " "), strings.Join(oparts, " "))
+	if sorted != "ok" {
+		return in, sorted
+	}
+	out := safe(func() string {
+		prices, by := types.BidsByPrice(book())
+		var ps, ls []string
+		for _, p := range prices {
+			ps = append(ps, rawOf(p).String())
+			var ids []string
+			for _, b := range by[p.String()] {
+				ids = append(ids, fmt.Sprint(b.Id))
+			}
+			ls = append(ls, strings.Join(ids, " "))
+		}
+		return fmt.Sprintf("prices %s levels %s maplen %d", strings.Join(ps, " "), strings.Join(ls, " ; "), len(by))
+	})
+	return in, out
+}
+
 // pureEval: `harness pureeval <file>` — the Go results for the given input lines (replay of a
 // pure-function divergence)
 func pureEval(path string) error {
@@ -370,6 +425,8 @@ func pureMain(args []string) error {
 			in, out = g.caseConvert()
 		case 6:
 			in, out = g.caseSched()
+		case 7:
+			in, out = g.caseBBP()
 		default:
 			in, out = g.caseMatch()
 		}
@@ -377,7 +434,7 @@ func pureMain(args []string) error {
 		fmt.Fprintln(wi, in)
 		fmt.Fprintln(wo, out)
 	}
-	fmt.Printf("{\"dec\": %d, \"tosell\": %d, \"topay\": %d, \"sched\": %d, \"match\": %d}\n",
-		counts["dec"], counts["tosell"], counts["topay"], counts["sched"], counts["match"])
+	fmt.Printf("{\"dec\": %d, \"tosell\": %d, \"topay\": %d, \"sched\": %d, \"match\": %d, \"bbp\": %d}\n",
+		counts["dec"], counts["tosell"], counts["topay"], counts["sched"], counts["match"], counts["bbp"])
 	return nil
 }
